@@ -16,7 +16,7 @@ Section ProgProofs.
 
   Notation R := (R_of St Sched N SS).
   Notation runP := (run_prog QI St Sched N SS sched).
-  Notation runG := (run_gen QI St Sched R sched).
+  Notation runG := (fun guard => run_gen QI St Sched R sched guard (pending_resolve QI St)).
 
   Lemma run_prog_S guard f k (s : sim QI St) :
     runP guard (S f) k s =
@@ -52,9 +52,10 @@ Section ProgProofs.
     let s1 := pop_and_process QI St Sched R s in
     let cur := fst (q_pop QI (s_iter s) (s_queue s)) in
     if recompute_due QI St s1 then
-      if crash then inr s1
-      else inl {| c_sim := advance QI St Sched R (after_sched QI St Sched R (sched s1) s1);
-                  c_cur := cur; c_due := true; c_sch := Some (sched s1) |}
+      let s1r := pending_resolve QI St s1 in
+      if crash then inr s1r
+      else inl {| c_sim := advance QI St Sched R (after_sched QI St Sched R (sched s1r) s1r);
+                  c_cur := cur; c_due := true; c_sch := Some (sched s1r) |}
     else inl {| c_sim := advance QI St Sched R s1; c_cur := cur; c_due := false; c_sch := None |}.
   Proof.
     unfold run_loop_prog, pop_and_process.
@@ -64,7 +65,7 @@ Section ProgProofs.
     set (s1 := fold_left (handle_event QI St Sched R) evs (with_queue QI St q' s)).
     cbv zeta.
     destruct (recompute_due QI St s1) eqn:D.
-    - step. destruct crash; [reflexivity|].
+    - step. step. destruct crash; [reflexivity|].
       repeat step. rewrite exec_nil. reflexivity.
     - repeat step. rewrite exec_nil. reflexivity.
   Qed.
